@@ -12,7 +12,15 @@ conf = ""
 for line in open("/tmp/confirm_batch1.log"):
     if line.startswith(name + ":"):
         conf = line.strip()
-meta = {"name": name, "property": prop, "breaks": open(f"/tmp/seeded_out/{prop}_property.txt").read().split("\n")[0],
+def _title(pid):
+    for l in open("/verif/properties.jsonl"):
+        d = json.loads(l)
+        if d["id"] == pid:
+            return f"{pid}: {d['title']}"
+    return pid
+
+
+meta = {"name": name, "property": prop, "breaks": _title(prop),
         "needs_to_manifest": needs, "confirmed_in_scratch_worktree": conf,
         "commands": [f"tools/confirm_seed.sh /tmp/seeded_out/{name} {name}   # demo on pristine: rc 0; demo with patch: rc != 0; test-suite with patch: passes",
                      f"tools/try_seed.sh seeded/{name}/patch.diff {prop}   # git -C /repo apply; ./check {prop}; git -C /repo checkout -- ."],
